@@ -315,18 +315,11 @@ theorem RunP_append_stop (q : List Stmt) : ∀ (p : List Stmt) (s : St) (o : Out
     | step _ _ _ s' _ h1 h2 => exact RunP.step _ _ _ s' _ h1 (ih s' o h2 hno)
     | stop _ _ _ _ h1 h2 => exact RunP.stop _ _ _ _ h1 h2
 
-/-- Helpers that are called with mutex `m` held: no mistake on any path, and
-every normal completion still holds exactly what lets the caller's `unlock m` succeed. -/
+/-- Helpers that are called with mutex `m` held (modelled as acquiring it on entry
+and releasing it on return): no mistake on any path. -/
 theorem checkAssuming_sound (p : Prog) (m : String) (h : checkAssuming p m = true) (o : Out)
-    (hr : RunP p ⟨[m], []⟩ o) : o ≠ .bad := by
-  intro e
-  subst e
-  unfold checkAssuming at h
-  split at h
-  · cases h
-  · rename_i r hf
-    have hr' := RunP_append_stop [.unlock m] p _ _ hr (by simp)
-    exact (flowP_sound _ _ _ _ hf _ hr').1 rfl
+    (hr : RunF (.lock m :: .deferUnlock m :: p) ⟨[], []⟩ o) : o = .done :=
+  check_sound _ [] h o hr
 
 /-- Non-vacuity: the checker rejects the two classic mistakes and accepts the correct shapes. -/
 example : check [.lock "mu", .ite [.ret] [], .unlock "mu"] [] = false ∧          -- early return with the lock held
